@@ -45,208 +45,222 @@ def _site_edges(R, body, sites, inner=0):
 def check(R):
     F = R.facts
     # ---- a ---------------------------------------------------------------------
-    co = async_body(R, PR + '::handle_pasepake3')
-    g = lambda: R.call_guard(co, SP + '::verify')
-    R.cut('P2', co, 'ReservedSession::update', call_bbs(co, UPD), 'Spake2P::verify Ok', g)
-    R.cut('P2', co, 'ReservedSession::complete()', call_bbs(co, COMPLETE), 'Spake2P::verify Ok', g)
-    arm = closure_in(R, PR + '::handle_pasepake3', ['FailSafe::arm'])
-    asites = closure_arg_sites(co, arm.fn, (WITH_STATE,))
-    R.floor('with_state(arm fail-safe)', len(asites), 1)
-    R.cut('P2', co, 'arm the fail-safe', [s.bb for s in asites], 'Spake2P::verify Ok', g)
-    R.cut('P2', co, 'construct SessionEstablishmentSuccess', variant_bbs(co, SC, 'SessionEstablishmentSuccess'), 'Spake2P::verify Ok', g)
-    # PASE session identity: fab_idx 0, no node ids (constant operands)
-    v = R.body(SP + '::verify')
-    oks = ok_return_bbs(v)
-    R.floor('Ok return of Spake2P::verify', len(oks), 1)
-    R.cut('P2', v, 'return Ok(keys)', oks, 'ct_eq(ca, self.ca).unwrap_u8() == 1',
-          lambda: true_edges_of_cmp(v, 'Eq', lambda s: 'subtle::Choice::unwrap_u8' in src_calls(s), lambda s: 1 in src_consts(s)))
-    cts = v.calls('subtle::ConstantTimeEq::ct_eq')
-    R.floor('ct_eq in Spake2P::verify', len(cts), 1)
-    srcs = set()
-    for a in cts[0].d['a']:
-        srcs |= prims.sources(v, a, through={'crypto::canon::CryptoSensitive::access', 'crypto::canon::CryptoSensitiveRef::access'})
-    R.expect('P10', v.fn, 'constant-time comparison is between the received cA and the computed self.ca',
-             mentions(srcs, 'ca') and ('arg', 2) in srcs, 'ct_eq(ca_param, self.ca)', f'sources {sorted(map(str, srcs))[:8]}', v.where(cts[0].bb))
-    # no non-constant-time comparison of self.ca anywhere
-    bad = []
-    for b in F.bodies.values():
-        if not b.focus or not b.fn.startswith('sc::pase'):
-            continue
-        for (bb, j, o, a1, a2, d) in prims.compare_sites(b, ops=('Eq', 'Ne')):
-            for a in (a1, a2):
-                p = op_place(a)
-                if p and any(isinstance(x, str) and x.startswith('.ca:' + SP) for x in p[1:]):
-                    bad.append(b.where(bb))
-        for t in b.calls('core::cmp::PartialEq::eq', 'core::cmp::PartialEq::ne'):
-            s = set()
-            for a in t.d['a']:
-                s |= prims.sources(b, a)
-            if any(f.startswith('ca:' + SP) for f in src_fields(s)):
-                bad.append(b.where(t.bb))
-    R.expect('P1', SP, 'self.ca is never compared with a variable-time ==', not bad, 'no ==/!= on Spake2P.ca', f'variable-time comparison at {bad}')
+    with R.clause('a'):
+        pass
+        co = async_body(R, PR + '::handle_pasepake3')
+        g = lambda: R.call_guard(co, SP + '::verify')
+        R.cut('P2', co, 'ReservedSession::update', call_bbs(co, UPD), 'Spake2P::verify Ok', g)
+        R.cut('P2', co, 'ReservedSession::complete()', call_bbs(co, COMPLETE), 'Spake2P::verify Ok', g)
+        arm = closure_in(R, PR + '::handle_pasepake3', ['FailSafe::arm'])
+        asites = closure_arg_sites(co, arm.fn, (WITH_STATE,))
+        R.floor('with_state(arm fail-safe)', len(asites), 1)
+        R.cut('P2', co, 'arm the fail-safe', [s.bb for s in asites], 'Spake2P::verify Ok', g)
+        R.cut('P2', co, 'construct SessionEstablishmentSuccess', variant_bbs(co, SC, 'SessionEstablishmentSuccess'), 'Spake2P::verify Ok', g)
+        # PASE session identity: fab_idx 0, no node ids (constant operands)
+        v = R.body(SP + '::verify')
+        oks = ok_return_bbs(v)
+        R.floor('Ok return of Spake2P::verify', len(oks), 1)
+        R.cut('P2', v, 'return Ok(keys)', oks, 'ct_eq(ca, self.ca).unwrap_u8() == 1',
+              lambda: true_edges_of_cmp(v, 'Eq', lambda s: 'subtle::Choice::unwrap_u8' in src_calls(s), lambda s: 1 in src_consts(s)))
+        cts = v.calls('subtle::ConstantTimeEq::ct_eq')
+        R.floor('ct_eq in Spake2P::verify', len(cts), 1)
+        srcs = set()
+        for a in cts[0].d['a']:
+            srcs |= prims.sources(v, a, through={'crypto::canon::CryptoSensitive::access', 'crypto::canon::CryptoSensitiveRef::access'})
+        R.expect('P10', v.fn, 'constant-time comparison is between the received cA and the computed self.ca',
+                 mentions(srcs, 'ca') and ('arg', 2) in srcs, 'ct_eq(ca_param, self.ca)', f'sources {sorted(map(str, srcs))[:8]}', v.where(cts[0].bb))
+        # no non-constant-time comparison of self.ca anywhere
+        bad = []
+        for b in F.bodies.values():
+            if not b.focus or not b.fn.startswith('sc::pase'):
+                continue
+            for (bb, j, o, a1, a2, d) in prims.compare_sites(b, ops=('Eq', 'Ne')):
+                for a in (a1, a2):
+                    p = op_place(a)
+                    if p and any(isinstance(x, str) and x.startswith('.ca:' + SP) for x in p[1:]):
+                        bad.append(b.where(bb))
+            for t in b.calls('core::cmp::PartialEq::eq', 'core::cmp::PartialEq::ne'):
+                s = set()
+                for a in t.d['a']:
+                    s |= prims.sources(b, a)
+                if any(f.startswith('ca:' + SP) for f in src_fields(s)):
+                    bad.append(b.where(t.bb))
+        R.expect('P1', SP, 'self.ca is never compared with a variable-time ==', not bad, 'no ==/!= on Spake2P.ca', f'variable-time comparison at {bad}')
 
     # ---- b ---------------------------------------------------------------------
-    sv = R.body(SP + '::setup_verifier')
-    gv = lambda: R.call_guard(sv, 'crypto::EcPoint::is_valid_pubkey', inner=1)
-    for nm in (SP + '::compute_verifier_tt_hash', SP + '::compute_ke_ca_cb', SP + '::compute_b_pt_xy'):
-        R.cut('P2', sv, nm.split('::')[-1], call_bbs(sv, nm), 'is_valid_pubkey(pA) == true', gv)
-    R.cut('P2', sv, 'return Ok', ok_return_bbs(sv), 'is_valid_pubkey(pA) == true', gv)
-    ivp = sv.calls('crypto::EcPoint::is_valid_pubkey')[0]
-    s = prims.sources(sv, ivp.d['a'][0], through={'crypto::Crypto::ec_point'})
-    R.expect('P10', sv.fn, 'the validated point is the prover share a_pt', ('arg', 4) in s, 'is_valid_pubkey(ec_point(a_pt))',
-             f'sources {sorted(map(str, s))[:6]}', sv.where(ivp.bb))
+    with R.clause('b'):
+        pass
+        sv = R.body(SP + '::setup_verifier')
+        gv = lambda: R.call_guard(sv, 'crypto::EcPoint::is_valid_pubkey', inner=1)
+        for nm in (SP + '::compute_verifier_tt_hash', SP + '::compute_ke_ca_cb', SP + '::compute_b_pt_xy'):
+            R.cut('P2', sv, nm.split('::')[-1], call_bbs(sv, nm), 'is_valid_pubkey(pA) == true', gv)
+        R.cut('P2', sv, 'return Ok', ok_return_bbs(sv), 'is_valid_pubkey(pA) == true', gv)
+        ivp = sv.calls('crypto::EcPoint::is_valid_pubkey')[0]
+        s = prims.sources(sv, ivp.d['a'][0], through={'crypto::Crypto::ec_point'})
+        R.expect('P10', sv.fn, 'the validated point is the prover share a_pt', ('arg', 4) in s, 'is_valid_pubkey(ec_point(a_pt))',
+                 f'sources {sorted(map(str, s))[:6]}', sv.where(ivp.bb))
 
     # ---- c ---------------------------------------------------------------------
-    for fn, use_desc, use in ((PR + '::handle_pbkdfparamrequest', 'read comm_window.verifier', None),
-                              (PR + '::handle_pasepake1', 'Spake2P::setup_verifier', SP + '::setup_verifier')):
-        co = async_body(R, fn)
-        clo = closure_in(R, fn, ['Pase::comm_window', 'Pase::check_comm_window_timeout'])
-        gsome = lambda clo=clo: R.call_guard(clo, PASE + '::comm_window')
-        if use:
-            ubbs = call_bbs(clo, use)
-        else:
-            ubbs = sorted({i for i, j, s in clo.stmts() for o in ([s[1].get('pl')] if s[1].get('op') in ('ref', 'discr') else [op_place(a) for a in s[1].get('a', ())])
-                           if o and any(isinstance(x, str) and x.startswith('.verifier:sc::pase::CommWindow') for x in o[1:])})
-            R.floor('reads of CommWindow.verifier', len(ubbs), 1)
-        R.cut('P2', clo, use_desc, ubbs, 'Pase::comm_window() is Some', gsome)
-        # Ok(true) only on the Some edge
-        trues = [i for i, j, s in clo.stmts() if s[1].get('op') == 'agg' and s[1].get('var') == 'Ok' and s[1]['a'] and s[1]['a'][0].get('k', {}).get('v') == 1]
-        R.floor('Ok(true) in window closure', len(trues), 1)
-        R.cut('P2', clo, 'return Ok(true)', trues, 'Pase::comm_window() is Some', gsome)
-        miss = prims.precedes(clo, call_bbs(clo, PASE + '::check_comm_window_timeout'), call_bbs(clo, PASE + '::comm_window'))
-        R.expect('P3', clo.fn, 'check_comm_window_timeout precedes comm_window()', not miss, 'expiry is evaluated first on every path',
-                 f'comm_window() reachable without the expiry check at {[clo.where(b) for b in miss]}')
-        # parent: reply only if has_comm_window
-        hs = named_local(co, 'has_comm_window')
-        te = set()
-        for l in hs:
-            te |= prims.bool_local_edges(co, l)[0]
-        sends = [t.bb for t in co.calls('transport::exchange::Exchange::send_with')]
-        R.floor('send_with in ' + fn, len(sends), 1)
-        R.cut('P2', co, 'send the PASE reply', sends, 'has_comm_window == true', te)
-        sites = closure_arg_sites(co, clo.fn, (WITH_STATE,))
-        R.floor('with_state(window closure)', len(sites), 1)
-        ss = set()
-        for l in hs:
-            ss |= prims.sources(co, l)
-        R.expect('P10', co.fn, 'has_comm_window is the window closure\'s result',
-                 any(x[0] == 'call' and x[1] == WITH_STATE and x[2] == sites[0].bb for x in ss) and not [c for c in src_consts(ss) if c is not None],
-                 'has_comm_window <= with_state(window closure)', f'sources {sorted(map(str, ss))[:6]}', co.where(sites[0].bb))
+    with R.clause('c'):
+        pass
+        for fn, use_desc, use in ((PR + '::handle_pbkdfparamrequest', 'read comm_window.verifier', None),
+                                  (PR + '::handle_pasepake1', 'Spake2P::setup_verifier', SP + '::setup_verifier')):
+            co = async_body(R, fn)
+            clo = closure_in(R, fn, ['Pase::comm_window', 'Pase::check_comm_window_timeout'])
+            gsome = lambda clo=clo: R.call_guard(clo, PASE + '::comm_window')
+            if use:
+                ubbs = call_bbs(clo, use)
+            else:
+                ubbs = sorted({i for i, j, s in clo.stmts() for o in ([s[1].get('pl')] if s[1].get('op') in ('ref', 'discr') else [op_place(a) for a in s[1].get('a', ())])
+                               if o and any(isinstance(x, str) and x.startswith('.verifier:sc::pase::CommWindow') for x in o[1:])})
+                R.floor('reads of CommWindow.verifier', len(ubbs), 1)
+            R.cut('P2', clo, use_desc, ubbs, 'Pase::comm_window() is Some', gsome)
+            # Ok(true) only on the Some edge
+            trues = [i for i, j, s in clo.stmts() if s[1].get('op') == 'agg' and s[1].get('var') == 'Ok' and s[1]['a'] and s[1]['a'][0].get('k', {}).get('v') == 1]
+            R.floor('Ok(true) in window closure', len(trues), 1)
+            R.cut('P2', clo, 'return Ok(true)', trues, 'Pase::comm_window() is Some', gsome)
+            miss = prims.precedes(clo, call_bbs(clo, PASE + '::check_comm_window_timeout'), call_bbs(clo, PASE + '::comm_window'))
+            R.expect('P3', clo.fn, 'check_comm_window_timeout precedes comm_window()', not miss, 'expiry is evaluated first on every path',
+                     f'comm_window() reachable without the expiry check at {[clo.where(b) for b in miss]}')
+            # parent: reply only if has_comm_window
+            hs = named_local(co, 'has_comm_window')
+            te = set()
+            for l in hs:
+                te |= prims.bool_local_edges(co, l)[0]
+            sends = [t.bb for t in co.calls('transport::exchange::Exchange::send_with')]
+            R.floor('send_with in ' + fn, len(sends), 1)
+            R.cut('P2', co, 'send the PASE reply', sends, 'has_comm_window == true', te)
+            sites = closure_arg_sites(co, clo.fn, (WITH_STATE,))
+            R.floor('with_state(window closure)', len(sites), 1)
+            ss = set()
+            for l in hs:
+                ss |= prims.sources(co, l)
+            R.expect('P10', co.fn, 'has_comm_window is the window closure\'s result',
+                     any(x[0] == 'call' and x[1] == WITH_STATE and x[2] == sites[0].bb for x in ss) and not [c for c in src_consts(ss) if c is not None],
+                     'has_comm_window <= with_state(window closure)', f'sources {sorted(map(str, ss))[:6]}', co.where(sites[0].bb))
 
     # ---- d ---------------------------------------------------------------------
-    co = async_body(R, PR + '::handle')
-    rec = closure_in(R, PR + '::handle', ['Pase::record_pake_failure'])
-    rsites = closure_arg_sites(co, rec.fn, (WITH_STATE,))
-    R.floor('with_state(record_pake_failure)', len(rsites), 1)
-    res = named_local(co, 'result')
-    err_edges, _ = prims.enum_local_edges(F, co, lambda pl: pl[0] in res and len(pl) == 1, RESULT, ['Err'])
-    okfalse = set()
-    for i, blk in enumerate(co.bbs):
-        t = blk['t']
-        if t['t'] == 'switch' and not blk.get('c'):
-            p = op_place(t['on'])
-            if p and p[0] in res and len(p) == 3 and p[1] == '@Ok':
-                for val, b in t['tg']:
-                    if val == 0:
-                        okfalse.add((i, b))
-    R.expect('P2', co.fn, 'handshake result is classified: Err edge and Ok(false) edge exist', bool(err_edges) and bool(okfalse),
-             f'Err edges {sorted(err_edges)}, Ok(false) edges {sorted(okfalse)}', f'Err edges {sorted(err_edges)}, Ok(false) edges {sorted(okfalse)}')
-    rbbs = {s.bb for s in rsites}
-    for nm, edges in (('Err(_)', err_edges), ('Ok(false)', okfalse)):
-        bad = []
-        for (frm, to) in edges:
-            r = prims.reach(co, (to,), cut_blocks=rbbs)
-            if set(co.ret_blocks()) & r:
-                bad.append(co.where(frm))
-        R.expect('P3', co.fn, f'every path from result = {nm} reaches record_pake_failure', not bad and bool(edges),
-                 'the failure is recorded before handle() returns', f'a path from {bad} returns without recording the failure',
-                 where=co.where(sorted(rbbs)[0]))
-    R.expect('P3', rec.fn, 'the recording closure calls record_pake_failure unconditionally',
-             not prims.precedes(rec, call_bbs(rec, PASE + '::record_pake_failure'), rec.ret_blocks()),
-             'record_pake_failure on every path', 'a path through the closure skips record_pake_failure')
-    # counter confinement and the constant
-    R.writers_confined('P1', 'pake_failures:sc::pase::CommWindow', {PASE + '::record_pake_failure', 'sc::pase::CommWindow::init',
-                       'sc::pase::CommWindow::init_with_pw', 'sc::pase::CommWindow::new', 'sc::pase::CommWindow::new_with_pw'})
-    rp = R.body(PASE + '::record_pake_failure')
-    cmpz = [(bb, o, a, b, d) for (bb, j, o, a, b, d) in prims.compare_sites(rp)
-            if any(f.startswith('pake_failures:') for f in src_fields(prims.sources(rp, a)) | src_fields(prims.sources(rp, b)))]
-    R.floor('comparison of pake_failures', len(cmpz), 1)
-    for (bb, o, a, b, d) in cmpz:
-        lhs_is_field = any(f.startswith('pake_failures:') for f in src_fields(prims.sources(rp, a)))
-        k = (b if lhs_is_field else a).get('k', {})
-        val = k.get('v')
-        opn = o if lhs_is_field else {'Ge': 'Le', 'Le': 'Ge', 'Gt': 'Lt', 'Lt': 'Gt'}.get(o, o)
-        good = (opn == 'Ge' and val == 20) or (opn == 'Gt' and val == 19)
-        R.expect('P6', rp.fn, 'window revoked when pake_failures >= 20', good, f'pake_failures {opn} {val}',
-                 f'comparison is pake_failures {opn} {val}; the property fixes twenty failed proofs', rp.where(bb))
-    # the increment: +1 saturating
-    inc = rp.calls('core::num::<impl u8>::saturating_add')
-    R.expect('P6', rp.fn, 'each failure increments the counter by exactly one',
-             len(inc) == 1 and inc[0].d['a'][1].get('k', {}).get('v') == 1, 'saturating_add(1)', 'counter increment is not saturating_add(1)')
-    rev = named_local(rp, 'revoke')
-    te = set()
-    for l in rev:
-        te |= prims.bool_local_edges(rp, l)[0]
-    R.cut('P2', rp, 'close_comm_window', call_bbs(rp, PASE + '::close_comm_window'), 'revoke == true', te)
-    bad = prims.always_followed_by(rp, [e[1] for e in te], call_bbs(rp, PASE + '::close_comm_window'))
-    R.expect('P3', rp.fn, 'revoke == true always reaches close_comm_window', not bad, 'close on every revoke path', f'revoke path skipping close: {bad}')
+    with R.clause('d'):
+        pass
+        co = async_body(R, PR + '::handle')
+        rec = closure_in(R, PR + '::handle', ['Pase::record_pake_failure'])
+        rsites = closure_arg_sites(co, rec.fn, (WITH_STATE,))
+        R.floor('with_state(record_pake_failure)', len(rsites), 1)
+        res = named_local(co, 'result')
+        err_edges, _ = prims.enum_local_edges(F, co, lambda pl: pl[0] in res and len(pl) == 1, RESULT, ['Err'])
+        okfalse = set()
+        for i, blk in enumerate(co.bbs):
+            t = blk['t']
+            if t['t'] == 'switch' and not blk.get('c'):
+                p = op_place(t['on'])
+                if p and p[0] in res and len(p) == 3 and p[1] == '@Ok':
+                    for val, b in t['tg']:
+                        if val == 0:
+                            okfalse.add((i, b))
+        R.expect('P2', co.fn, 'handshake result is classified: Err edge and Ok(false) edge exist', bool(err_edges) and bool(okfalse),
+                 f'Err edges {sorted(err_edges)}, Ok(false) edges {sorted(okfalse)}', f'Err edges {sorted(err_edges)}, Ok(false) edges {sorted(okfalse)}')
+        rbbs = {s.bb for s in rsites}
+        for nm, edges in (('Err(_)', err_edges), ('Ok(false)', okfalse)):
+            bad = []
+            for (frm, to) in edges:
+                r = prims.reach(co, (to,), cut_blocks=rbbs)
+                if set(co.ret_blocks()) & r:
+                    bad.append(co.where(frm))
+            R.expect('P3', co.fn, f'every path from result = {nm} reaches record_pake_failure', not bad and bool(edges),
+                     'the failure is recorded before handle() returns', f'a path from {bad} returns without recording the failure',
+                     where=co.where(sorted(rbbs)[0]))
+        R.expect('P3', rec.fn, 'the recording closure calls record_pake_failure unconditionally',
+                 not prims.precedes(rec, call_bbs(rec, PASE + '::record_pake_failure'), rec.ret_blocks()),
+                 'record_pake_failure on every path', 'a path through the closure skips record_pake_failure')
+        # counter confinement and the constant
+        R.writers_confined('P1', 'pake_failures:sc::pase::CommWindow', {PASE + '::record_pake_failure', 'sc::pase::CommWindow::init',
+                           'sc::pase::CommWindow::init_with_pw', 'sc::pase::CommWindow::new', 'sc::pase::CommWindow::new_with_pw'})
+        rp = R.body(PASE + '::record_pake_failure')
+        cmpz = [(bb, o, a, b, d) for (bb, j, o, a, b, d) in prims.compare_sites(rp)
+                if any(f.startswith('pake_failures:') for f in src_fields(prims.sources(rp, a)) | src_fields(prims.sources(rp, b)))]
+        R.floor('comparison of pake_failures', len(cmpz), 1)
+        for (bb, o, a, b, d) in cmpz:
+            lhs_is_field = any(f.startswith('pake_failures:') for f in src_fields(prims.sources(rp, a)))
+            k = (b if lhs_is_field else a).get('k', {})
+            val = k.get('v')
+            opn = o if lhs_is_field else {'Ge': 'Le', 'Le': 'Ge', 'Gt': 'Lt', 'Lt': 'Gt'}.get(o, o)
+            good = (opn == 'Ge' and val == 20) or (opn == 'Gt' and val == 19)
+            R.expect('P6', rp.fn, 'window revoked when pake_failures >= 20', good, f'pake_failures {opn} {val}',
+                     f'comparison is pake_failures {opn} {val}; the property fixes twenty failed proofs', rp.where(bb))
+        # the increment: +1 saturating
+        inc = rp.calls('core::num::<impl u8>::saturating_add')
+        R.expect('P6', rp.fn, 'each failure increments the counter by exactly one',
+                 len(inc) == 1 and inc[0].d['a'][1].get('k', {}).get('v') == 1, 'saturating_add(1)', 'counter increment is not saturating_add(1)')
+        rev = named_local(rp, 'revoke')
+        te = set()
+        for l in rev:
+            te |= prims.bool_local_edges(rp, l)[0]
+        R.cut('P2', rp, 'close_comm_window', call_bbs(rp, PASE + '::close_comm_window'), 'revoke == true', te)
+        bad = prims.always_followed_by(rp, [e[1] for e in te], call_bbs(rp, PASE + '::close_comm_window'))
+        R.expect('P3', rp.fn, 'revoke == true always reaches close_comm_window', not bad, 'close on every revoke path', f'revoke path skipping close: {bad}')
 
     # ---- e ---------------------------------------------------------------------
-    mutators = {PASE + '::open_basic_comm_window', PASE + '::open_comm_window', PASE + '::close_comm_window'}
-    MUT = ('utils::maybe::Maybe::reinit', 'utils::maybe::Maybe::clear', 'utils::maybe::Maybe::as_opt_mut', 'utils::maybe::Maybe::as_mut')
-    found = {}
-    for b in F.bodies.values():
-        if not b.focus or not any(m in b.calls_summary for m in MUT):
-            continue
-        for t in b.calls(*MUT):
-            s = prims.sources(b, t.d['a'][0])
-            if any(f == 'comm_window:' + PASE for f in src_fields(s)):
-                found.setdefault(F.owner_fn(b.fn), []).append((b, t))
-    R.floor('mutation sites of Pase.comm_window', sum(len(v) for v in found.values()), 3)
-    structural = {f for f, v in found.items() if any(t.d['f'] in MUT[:2] for b, t in v)}
-    R.confine('P1', 'functions that open/close Pase.comm_window (reinit/clear)', structural, mutators)
-    R.confine('P1', 'functions that take &mut CommWindow', set(found), mutators | {PASE + '::record_pake_failure'})
-    for f in sorted(structural):
-        for b, t in found[f]:
-            if t.d['f'] not in MUT[:2]:
+    with R.clause('e'):
+        pass
+        mutators = {PASE + '::open_basic_comm_window', PASE + '::open_comm_window', PASE + '::close_comm_window'}
+        MUT = ('utils::maybe::Maybe::reinit', 'utils::maybe::Maybe::clear', 'utils::maybe::Maybe::as_opt_mut', 'utils::maybe::Maybe::as_mut')
+        found = {}
+        for b in F.bodies.values():
+            if not b.focus or not any(m in b.calls_summary for m in MUT):
                 continue
-            # notify_mdns is the FnMut parameter: a call_mut/call_once whose receiver derives from an argument named notify_mdns
-            nbbs = []
-            for c in b.calls('core::ops::function::FnMut::call_mut', 'core::ops::function::FnOnce::call_once', 'core::ops::function::Fn::call'):
-                p = op_place(c.d['a'][0])
-                srcs = prims.sources(b, c.d['a'][0])
-                if any(x[0] == 'arg' and b.local_name(x[1]) == 'notify_mdns' for x in srcs):
-                    nbbs.append(c.bb)
-            bad = prims.always_followed_by(b, [t.bb], nbbs) if nbbs else [t.bb]
-            R.expect('P3', b.fn, f'window mutation at {b.where(t.bb)} is followed by notify_mdns() on every path', not bad,
-                     'mdns is notified', 'a path from the mutation returns without notifying mdns', b.where(t.bb))
-    ms = closure_in(R, 'Matter::mdns_services', ['Pase::comm_window'])
-    emits = [t.bb for t in ms.calls('sc::pase::CommWindow::mdns_service')]
-    R.floor('CommWindow::mdns_service in Matter::mdns_services', len(emits), 1)
-    R.cut('P2', ms, 'emit the commissionable mDNS record', emits, 'Pase::comm_window() is Some', lambda: R.call_guard(ms, PASE + '::comm_window'))
-    reach = prims.reachable_fns(F, ['im::InteractionModel::check_timeouts'], depth=3)
-    R.expect('P4', 'im::InteractionModel::check_timeouts', 'periodic timeout sweep evaluates the window expiry',
-             PASE + '::check_comm_window_timeout' in reach, 'check_timeouts -> check_comm_window_timeout', 'check_comm_window_timeout not reachable from check_timeouts')
-    cw = R.body(PASE + '::check_comm_window_timeout')
-    ex = named_local(cw, 'expired')
-    te = set()
-    for l in ex:
-        te |= prims.bool_local_edges(cw, l)[0]
-    bad = prims.always_followed_by(cw, [e[1] for e in te], call_bbs(cw, PASE + '::close_comm_window'))
-    R.expect('P3', cw.fn, 'an expired window is closed on every path', bool(te) and not bad, 'expired => close_comm_window', f'expired path skipping close: {bad}')
+            for t in b.calls(*MUT):
+                s = prims.sources(b, t.d['a'][0])
+                if any(f == 'comm_window:' + PASE for f in src_fields(s)):
+                    found.setdefault(F.owner_fn(b.fn), []).append((b, t))
+        R.floor('mutation sites of Pase.comm_window', sum(len(v) for v in found.values()), 3)
+        structural = {f for f, v in found.items() if any(t.d['f'] in MUT[:2] for b, t in v)}
+        R.confine('P1', 'functions that open/close Pase.comm_window (reinit/clear)', structural, mutators)
+        R.confine('P1', 'functions that take &mut CommWindow', set(found), mutators | {PASE + '::record_pake_failure'})
+        for f in sorted(structural):
+            for b, t in found[f]:
+                if t.d['f'] not in MUT[:2]:
+                    continue
+                # notify_mdns is the FnMut parameter: a call_mut/call_once whose receiver derives from an argument named notify_mdns
+                nbbs = []
+                for c in b.calls('core::ops::function::FnMut::call_mut', 'core::ops::function::FnOnce::call_once', 'core::ops::function::Fn::call'):
+                    p = op_place(c.d['a'][0])
+                    srcs = prims.sources(b, c.d['a'][0])
+                    if any(x[0] == 'arg' and b.local_name(x[1]) == 'notify_mdns' for x in srcs):
+                        nbbs.append(c.bb)
+                bad = prims.always_followed_by(b, [t.bb], nbbs) if nbbs else [t.bb]
+                R.expect('P3', b.fn, f'window mutation at {b.where(t.bb)} is followed by notify_mdns() on every path', not bad,
+                         'mdns is notified', 'a path from the mutation returns without notifying mdns', b.where(t.bb))
+        ms = closure_in(R, 'Matter::mdns_services', ['Pase::comm_window'])
+        emits = [t.bb for t in ms.calls('sc::pase::CommWindow::mdns_service')]
+        R.floor('CommWindow::mdns_service in Matter::mdns_services', len(emits), 1)
+        R.cut('P2', ms, 'emit the commissionable mDNS record', emits, 'Pase::comm_window() is Some', lambda: R.call_guard(ms, PASE + '::comm_window'))
+        reach = prims.reachable_fns(F, ['im::InteractionModel::check_timeouts'], depth=3)
+        R.expect('P4', 'im::InteractionModel::check_timeouts', 'periodic timeout sweep evaluates the window expiry',
+                 PASE + '::check_comm_window_timeout' in reach, 'check_timeouts -> check_comm_window_timeout', 'check_comm_window_timeout not reachable from check_timeouts')
+        cw = R.body(PASE + '::check_comm_window_timeout')
+        ex = named_local(cw, 'expired')
+        te = set()
+        for l in ex:
+            te |= prims.bool_local_edges(cw, l)[0]
+        bad = prims.always_followed_by(cw, [e[1] for e in te], call_bbs(cw, PASE + '::close_comm_window'))
+        R.expect('P3', cw.fn, 'an expired window is closed on every path', bool(te) and not bad, 'expired => close_comm_window', f'expired path skipping close: {bad}')
 
     # ---- f ---------------------------------------------------------------------
-    R.writers_confined('P1', 'session_timeout:' + PASE,
-                       {PR + '::update_session_timeout', PR + '::clear_session_timeout', PASE + '::record_pake_failure',
-                        PASE + '::new', PASE + '::init', 'sc::pase::initiator::PaseInitiator::initiate'}, min_sites=2)
+    with R.clause('f'):
+        pass
+        R.writers_confined('P1', 'session_timeout:' + PASE,
+                           {PR + '::update_session_timeout', PR + '::clear_session_timeout', PASE + '::record_pake_failure',
+                            PASE + '::new', PASE + '::init', 'sc::pase::initiator::PaseInitiator::initiate'}, min_sites=2)
 
     # ---- g ---------------------------------------------------------------------
-    n = 0
-    for b in F.bodies.values():
-        if not b.focus or not b.fn.startswith('sc::pase'):
-            continue
-        for c in (SP + '::verify', 'crypto::EcPoint::is_valid_pubkey', SP + '::setup_verifier', SP + '::setup_prover', SP + '::verify_cb'):
-            if c in b.calls_summary:
-                result_used(R, 'P8', b, (c,))
-                n += 1
-    R.floor('P8 sites', n, 3)
+    with R.clause('g'):
+        pass
+        n = 0
+        for b in F.bodies.values():
+            if not b.focus or not b.fn.startswith('sc::pase'):
+                continue
+            for c in (SP + '::verify', 'crypto::EcPoint::is_valid_pubkey', SP + '::setup_verifier', SP + '::setup_prover', SP + '::verify_cb'):
+                if c in b.calls_summary:
+                    result_used(R, 'P8', b, (c,))
+                    n += 1
+        R.floor('P8 sites', n, 3)
